@@ -65,6 +65,18 @@ func (rp *Replayer) build(pkgDir string) (string, error) {
 	mp := filepath.Join(rp.workDir, "vfmodel.go")
 	os.WriteFile(mp, []byte(modelSource), 0o644)
 	ov[filepath.Join(repoDir, "internal/vfmodel/model.go")] = mp
+	if sh, err := shadowOverlays(rp.files); err == nil {
+		i := 0
+		for k, v := range sh {
+			if !strings.HasPrefix(k, filepath.Join(repoDir, pkgDir)+"/") {
+				continue
+			}
+			sp := filepath.Join(rp.workDir, fmt.Sprintf("%s_shadow_%d.go", safe, i))
+			i++
+			os.WriteFile(sp, v, 0o644)
+			ov[k] = sp
+		}
+	}
 	ovj, _ := json.Marshal(map[string]interface{}{"Replace": ov})
 	ovPath := filepath.Join(rp.workDir, safe+"_overlay.json")
 	os.WriteFile(ovPath, ovj, 0o644)
@@ -109,8 +121,10 @@ func (rp *Replayer) runCases(pkgDir string, cases []ReplayCase) ([]*ReplayResult
 			return all, jerr
 		}
 		all = append(all, res...)
-		os.Remove(cf)
-		os.Remove(rf)
+		if os.Getenv("VF_KEEP_CASES") == "" {
+			os.Remove(cf)
+			os.Remove(rf)
+		}
 		if len(res) == 0 {
 			break
 		}
